@@ -343,6 +343,14 @@ class ForceMatrix:
             for e in edges_to_use:
                 self.frame.edges[e].tension = float(xres[index])
 
+        # interfaces excluded by the angle limit get no tension from this solve: do not leave them the value of an earlier one
+        for element in self.frame.internal_big_edges_vertices:
+            if element not in self.big_edges_to_use:
+                for vid in range(0, len(element)-1):
+                    e = list(set(self.frame.vertices[element[vid]].ownEdges) &
+                             set(self.frame.vertices[element[vid+1]].ownEdges))[0]
+                    self.frame.edges[e].tension = 0.0
+
         xres = xres[:-1]
         xres = self.get_solution_no_discarded(xres)
         self.force_dictionary = {}
